@@ -478,6 +478,20 @@ class Gen:
             oid = self.last_query[0]
             r = w.objs[oid]
             qname = self.last_query[1]
+            prev_args = self.last_query[2] if len(self.last_query) > 2 else None
+            if prev_args is not None and rng.random() < 0.5 and all((not isinstance(v_, str)) or v_ in w.tensors for v_ in prev_args.values()):
+                # the same request again with the same argument *structure* (same keywords, same shapes) but new tensor values:
+                # exactly the situation in which a cache keyed by less than the full arguments confuses two requests
+                a2 = {}
+                for k_, v_ in prev_args.items():
+                    if isinstance(v_, str) and v_ in w.tensors and w.tensors[v_]["view"].dtype.is_floating_point:
+                        a2[k_] = T(self.randn(*w.tensors[v_]["view"].shape), w.tensors[v_]["spec"].get("role", "tensor"))
+                    else:
+                        a2[k_] = v_
+                q = {"k": "query", "obj": oid, "q": qname, "args": a2}
+                self.last_query = (oid, qname, a2)
+                ops.append(q)
+                return ops
         else:
             pool = [q for q in self.queries if (q in world.ANY_QUERIES or r.psd)]
             if not pool:
@@ -552,7 +566,7 @@ class Gen:
                 f["v"] = round(rng.random(), 4)
             q["fault"] = f
             self.faults_left -= 1
-        self.last_query = (oid, qname)
+        self.last_query = (oid, qname, a)
         ops.append(q)
         return ops
 
